@@ -117,6 +117,14 @@ class PluginExec:
         msg = self.drv.ctl.all_messages[-1]
         if msg.obj.connection is not None and msg.obj.connection.name() != mc['name']:
             res.bad('message-on-wrong-connection', 'address %d is %s, message attributed to %s' % (addr, mc['name'], msg.obj.connection.name()))
+        if self.check_c15 and msg.obj.resolved():
+            # whatever thread it came from: the message reads as a message on the (resolved) object it was attributed to
+            head = '%s@%d%s.%s(' % (msg.obj.type, msg.obj.id, model.letters(msg.obj.generation), msg.name)
+            shown = [session.MSG_LINE.match(l).group(3) for l in out if session.MSG_LINE.match(l)]
+            for text in shown + [str(msg)]:
+                if head not in text:
+                    res.bad('message-reads-unresolved', 'message on address %d from thread %d is attributed to %s but reads %r' % (addr, thread, head[:-1], text[:160]))
+                    break
         if self.check_c10:
             exp = self.bp.expect(self.parsed, msg)
             if exp is None:
